@@ -234,6 +234,27 @@ fn run_program(ctx: &mut Ctx, fam: &str, k: u64, r: &mut Rng) {
             format!("after dropping every result, Vec::from(n{}) panicked ({}): something still references the leaf's buffer\nprogram: {}\npasses: {:?} keep_gradients={} drop order {:?}", l, m, p.pretty(), plan.passes, plan.keep_gradients, plan.drop_order),
         );
     }
+    // arrays built from dimensions alone (zero-initialised accumulators, momentum buffers) are arrays like any other: once
+    // what was derived from them is dropped they own their buffer
+    if let Some(Node::Leaf { dims, .. }) = p.nodes.first() {
+        let dims = dims.clone();
+        let res = guard(|| {
+            let acc = Array::from(dims.clone());
+            let other = Array::from(dims.clone());
+            {
+                let t = acc.clone().tracked();
+                let y = &(&t + &other) * &t;
+                y.backward(None);
+            }
+            let _v: Vec<Float> = Vec::from(acc);
+            let _w: Vec<Float> = Vec::from(other);
+        });
+        ctx.count("sole_owner_probes", 2);
+        ctx.count("zero_built_arrays_probed", 2);
+        if let Err(m) = res {
+            ctx.violation(&format!("C18|{}|zero-built-array-not-sole-owner", sub), format!("an array built with Array::from({:?}) is not the sole owner of its buffer after everything derived from it was dropped ({})", dims, m));
+        }
+    }
     // every user-operation node holds a derivative closure, every such closure holds a clone of a token: with all
     // results dropped, none may be left (a direct view of "no graph node remains", independent of the allocator ledger)
     ctx.count("user_closures_built", o.closures_built as u64);
